@@ -493,4 +493,77 @@ theorem malformed_redirect_outcomes :
     (run [.pass .redirectDead]).1 = .err .maxRetries ∧ (run [.pass .redirectDead]).2.2.net.nc = 6 ∧
     (pull cfgF toyHash 0 regA Scripts.honest (run [.pass .redirectDead]).2.1).1 = .ok () := by decide
 
+/-! ## Overlapping pulls that share a layer -/
+
+/-- **A pull reports success only after IT verified every layer it did not find complete on disk when it
+    began** — for the pull that JOINS a transfer another pull started (repaired variant): whatever that
+    transfer delivered (`jr` is arbitrary: corrupt bytes, a failure), for every store with intact blobs, every
+    manifest, every script: the joining pull never leaves a blob that does not hash to its name (any outcome),
+    and if it reports success every layer of its manifest is stored and hashes to its digest and its name
+    resolves to the served manifest. -/
+theorem joining_pull_verifies (cfg : Cfg) (hash : Bytes → Digest) (name : Name) (reg : Registry)
+    (sc : Scripts) (x : Digest) (jr : JoinRes) (st st' : Store) (o : Outcome) (log : Log)
+    (hearly : cfg.verifyEarly = true) (hinv : BlobInv hash st)
+    (h : pullJ cfg hash name reg sc x jr st = (o, st', log)) :
+    BlobInv hash st' ∧
+    (o = .ok () →
+      (∀ l ∈ reg.manifest.all, ∃ d c, l.digest = .ok d ∧ st'.blobs d = some c ∧ hash c = d) ∧
+      lookupM name st'.manifests = some (.readable reg.manifest)) := by
+  unfold pullJ at h
+  simp only [hearly, if_true] at h
+  split at h
+  · cases h; exact ⟨hinv, fun e => by cases e⟩
+  · cases h; exact ⟨hinv, fun e => by cases e⟩
+  · cases h; exact ⟨hinv, fun e => by cases e⟩
+  · split at h
+    · rename_i e s hdl
+      cases h
+      exact ⟨dlLoopJ_blobInv_early hearly x jr _ hdl hinv, fun e => by cases e⟩
+    · rename_i p s hdl
+      cases h
+      exact ⟨dlLoopJ_blobInv_early hearly x jr _ hdl hinv, fun e => by cases e⟩
+    · rename_i s hdl
+      cases h
+      have hs := dlLoopJ_blobInv_early hearly x jr _ hdl hinv
+      refine ⟨hs, fun _ => ⟨?_, lookupM_insertM _ _ _⟩⟩
+      intro l hl
+      obtain ⟨d, c, hd, hc⟩ := (dlLoopJ_ok_present x jr _ hdl).2 l hl
+      exact ⟨d, c, hd, hc, hs d c hc⟩
+
+/-- the joined pull of the two-pull scenario: when B joins A's transfer while it is in flight (`during`),
+    B's success means B's layers are stored and verified — also when the shared transfer was corrupt -/
+theorem pull2_joiner_success_verified (cfg : Cfg) (hash : Bytes → Digest) (x : Digest)
+    (nameA nameB : Name) (regA regB : Registry) (scA scB : Scripts) (st st' : Store) (oA : Outcome)
+    (hearly : cfg.verifyEarly = true) (hinv : BlobInv hash st)
+    (h : pull2 cfg hash .during x nameA regA scA nameB regB scB st = (oA, .ok (), st')) :
+    BlobInv hash st' ∧
+    ∀ l ∈ regB.manifest.all, ∃ d c, l.digest = .ok d ∧ st'.blobs d = some c ∧ hash c = d := by
+  unfold pull2 at h
+  simp only at h
+  generalize hA : pull cfg hash nameA regA scA st = rA at h
+  obtain ⟨oA', stA, logA⟩ := rA
+  generalize hB : pullJ cfg hash nameB regB scB x _ stA = rB at h
+  obtain ⟨oB, stB, logB⟩ := rB
+  simp only [Prod.mk.injEq] at h
+  obtain ⟨_, hoB, hst⟩ := h
+  subst hst
+  have hinvA : BlobInv hash stA := pull_fail_preserves cfg hash nameA regA scA st stA oA' logA hearly hinv hA
+  obtain ⟨hb, hs⟩ := joining_pull_verifies cfg hash nameB regB scB x _ stA stB oB logB hearly hinvA hB
+  exact ⟨hb, (hs hoB).1⟩
+
+/-- **Witness (genuine, unseeded): a second pull that arrives while the first one is VERIFYING the shared
+    layer** finds the renamed, still unverified file, treats it as a cache hit, installs its manifest and
+    reports success; the first pull then detects the digest mismatch and removes the blob: B's name resolves to
+    a manifest whose layer is missing.  (Repaired-variant model = current code; corrupt transfer: one flipped
+    byte.) -/
+theorem concurrent_pull_during_verification_installs_missing_layer :
+    let regX : Registry := ⟨⟨[⟨.ok dA, 2⟩], ⟨.empty, 0⟩⟩, [(dA, cA)], [0]⟩
+    let scA : Scripts := ⟨[], [], [(dA, ⟨[], [], [[.body (.flip 0) none .eof]]⟩)], none⟩
+    let r := pull2 cfgF toyHash .atVerify dA 0 regX scA 1 regX Scripts.honest st0
+    r.1 = .err .digestMismatch ∧ r.2.1 = .ok () ∧ r.2.2.blobs dA = none ∧
+    lookupM 1 r.2.2.manifests = some (.readable regX.manifest) ∧
+    -- … whereas joining DURING the transfer is safe: both fail, nothing is installed
+    (pull2 cfgF toyHash .during dA 0 regX scA 1 regX Scripts.honest st0).2.1 = .err .digestMismatch ∧
+    (pull2 cfgF toyHash .during dA 0 regX scA 1 regX Scripts.honest st0).2.2.manifests = [] := by decide
+
 end OllamaVerif.C03
